@@ -100,6 +100,20 @@ func runC06(e *Engine, r *Report, tier string) {
 	r.Rule("R3", "Go release condition is the complement-side of the contract's `block.number < timeout`", 2, "require(block.number ...) sites in FxBridgeLogic*.sol")
 	r.Rule("R4", "creation guarded by timeout>0; projector returns 0 when nothing observed", 3, "sites assigning BatchTimeout/Timeout")
 	r.Rule("R5", "batch cancel reachable only from timeout cleanup and executed-batch handler", 1, "callers of the function that re-adds batch txs to the pool")
+	r.Rule("R9", "a batch is cancelled on execution of another one only if it is an older batch of the same token, or on its own timeout (C05.R2 cancel-target): the external contract keeps one last-executed nonce per token", 2, "C05 obligations")
+	if running["C05"] == 0 {
+		// (C05 itself imports a C06 rule: when C06 runs as C05's sub-report the import back is skipped)
+		sub05 := NewReport("C05", "other")
+		runC05(e, sub05, tier)
+		for _, o := range sub05.Obls {
+			if o.Rule == "R2" && strings.HasSuffix(o.Construct, " target") {
+				r.add("R9", "C05.R2 "+o.Construct, o.Status, o.Pos, o.Detail)
+			}
+		}
+	} else {
+		r.Ok("R9", "C05.R2 (sub-report)", "", "decided by the enclosing C05 run")
+		r.Ok("R9", "C05.R2 (sub-report) 2", "", "decided by the enclosing C05 run")
+	}
 	r.Rule("R7", "a record whose observed result is parked is not released by the timeout sweep", 1, "families settled at execution of a parked claim")
 	r.Rule("R6", "the external height recorded as observed is part of what the quorum voted on (claim hash covers BlockHeight; decided as C03.R1)", 6, "ExternalClaim implementers")
 	r.Rule("R8", "events are applied in event-nonce order without gaps: the settling event of a record is processed before any later event can move the observed height past its timeout (C01.R1)", 1, "C01 obligations")
